@@ -486,7 +486,11 @@ EXPLANATION = (
     "whole-variable write) -- outside the recorded known class 'first "
     "access is a partial or conditional write' -- and get_output_parameters "
     "records every variable with a writing access; neither removes entries "
-    "nor touches the other list.")
+    "nor touches the other list.  For every work list of non-local accesses "
+    "(and whatever the call tree adds to it), the work-list loop of "
+    "_resolve_calls_and_unknowns puts every plain variable access whose "
+    "module is not ignored among the outputs if it is written and among the "
+    "inputs unless it is written first.")
 
 
 def replay(name, ob, model, uni):
